@@ -388,7 +388,7 @@ NewComposite ==
        LET G == Range(Gs) IN
        /\ F \cup G # {}
        /\ dup => G # {}
-       /\ Cardinality(F) + Cardinality(G) <= 3
+       /\ Scripted \/ Cardinality(F) + Cardinality(G) <= 3      \* (a bound on free exploration only)
        /\ ncomp' = ncomp + 1
        /\ cid' = [m \in Members |-> IF m \in F \/ cid[m] \in G THEN ncomp + 1 ELSE cid[m]]
        /\ UNCHANGED <<ens, alive, blk, bkind, contr, known>>
@@ -448,8 +448,8 @@ InvalidCases ==
   \cup PerEntry("use_destroyed_povm", Entries, DeadEntryOK)
 Invalid ==
   /\ On("invalid") /\ Depth /\ Act("invalid")
-  /\ \E cs \in Pick({x \in InvalidCases : x[1] = "op_outside" =>
-                        (x[3][1] # x[3][2] /\ cid[Mem(x[3][1])] # cid[Mem(x[3][2])])
+  /\ \E cs \in Pick({x \in InvalidCases :
+                     /\ (x[1] = "op_outside" => (x[3][1] # x[3][2] /\ cid[Mem(x[3][1])] # cid[Mem(x[3][2])]))
                      /\ (x[1] = "measure_with_destroyed" => cid[Mem(x[3][1])] = cid[Mem(x[3][2])])
                      /\ (x[1] \in {"outside_op", "outside_kraus", "outside_measure", "outside_povm"} => OutsideOK(x))
                      /\ (x[1] \in {"outside_kraus", "outside_povm"} => DimKnown(x[3][1]))}) :
